@@ -44,6 +44,26 @@ let parse_hframes s =
           fdata = pattern (int_of_string l) (int_of_string a) (int_of_string m) }
     | _ -> failwith "hframe") (split_on ',' s)
 
+(* frames with a corruption suffix on the method (kind rhe / rhste): "w6!c:len:a:m:csize" *)
+let parse_eframes s =
+  if s = "_" then [] else
+  List.map (fun p -> match split_on ':' p with
+    | [meth; l; a; m; cs] ->
+        let l = int_of_string l in
+        let data = pattern l (int_of_string a) (int_of_string m) in
+        let st = match String.index_opt meth '!' with
+          | None -> SGood
+          | Some i ->
+              (match meth.[i + 1] with
+               | 'c' | 'p' -> SLate (n_of_int l, data)
+               | 's' -> SLate (n_of_int (l - 1), List.filteri (fun j _ -> j < l - 1) data)
+               | 'm' | 'i' -> SEarly
+               | 'z' -> SFrame InvalidData
+               | 't' -> SFrame UnexpectedEof
+               | _ -> failwith "corruption") in
+        { eb = { csize = n_of_int (int_of_string cs); fdata = data }; es = st }
+    | _ -> failwith "eframe") (split_on ',' s)
+
 let parse_index s =
   if s = "_" then [] else
   List.map (fun p -> match split_on ':' p with
@@ -133,6 +153,13 @@ let handle kind a =
       (* frames gzi ops : the same history on the single-threaded Reader (no g / z ops) *)
       let ops = List.filter_map (function MOp o -> Some o | _ -> None) (parse_mops a.(2)) in
       Some (show_steps (c03_st_reader_case (parse_hframes a.(0)) (parse_index a.(1)) ops))
+  | "rhe" ->
+      (* like rh, over a file with corrupt blocks / a broken last frame *)
+      let p = nat_of_int (int_of_string a.(0)) in
+      Some (show_steps (c03_mt_reader_err_case p (parse_segs a.(4)) (parse_eframes a.(1)) (parse_index a.(2)) (parse_mops a.(3))))
+  | "rhste" ->
+      let ops = List.filter_map (function MOp o -> Some o | _ -> None) (parse_mops a.(2)) in
+      Some (show_steps (c03_st_reader_err_case (parse_eframes a.(0)) (parse_index a.(1)) ops))
   | _ -> None
 
 let () = run_driver handle
